@@ -1,6 +1,5 @@
 PROP = dict(
     id="C24",
-    disabled=True,
     engines=["c24"],
     go_tags=["c24"],
     extract_files={"MM/Gen/C24.lean": {"cmd": ["go", "run", "{VERIF}/tools/c24_extract.go", "internal/health/server"]}},
